@@ -83,6 +83,9 @@ def prefix_free(cands, forbidden):
     return outs
 
 
+# user code may raise any exception class (the library must propagate the same object, C02/C10)
+raise_stmt = st.sampled_from([['raise']] * 6 + [['raise', 'type'], ['raise', 'value'], ['raise', 'os'], ['raise', 'fnf'], ['raise', 'runtime']])
+
 small_args = st.lists(st.one_of(st.integers(0, 2), st.sampled_from(['x', 'y'])), max_size=2)
 
 
@@ -149,13 +152,13 @@ def program(draw, cfg=DEFAULT_CFG, cache_rel='cache.gz'):
                 q = [draw(st.just('q')), draw(st.sampled_from(['exists', 'is_file', 'is_dir'])), draw(path), 'METADATA']
                 stmts.append(['if', q, body(i, False, depth + 1), body(i, False, depth + 1)])
             elif c == 8 and draw(st.integers(0, 9)) < cfg['raise_w'] * 3:
-                stmts.append(['raise'])
+                stmts.append(draw(raise_stmt))
             elif c == 9 and is_file and not wrote and depth == 0:
                 stmts.append(['write'])
                 wrote = True
         has_call = any(x[0] in ('bf', 'sb') for x in stmts)
         if depth == 0 and has_call and not any(x[0] == 'raise' for x in stmts) and chance(draw, cfg.get('fail_after_nested_p', 0.1)):
-            stmts.append(['raise'])      # the function fails after nested calls succeeded (their records sit below a failure)
+            stmts.append(draw(raise_stmt))      # the function fails after nested calls succeeded (their records sit below a failure)
         if depth == 0 and i + 1 < nfun and cfg.get('chain_p') and chance(draw, cfg['chain_p']):
             stmts.insert(draw(st.integers(0, len(stmts))), call(i + 1))
         if is_file and depth == 0 and not wrote and not chance(draw, cfg['nowrite_p']):
